@@ -2092,7 +2092,7 @@ Qed.
 (* ---------- SendInteractive: the shape of every trace ---------- *)
 Definition ia_has_echo (o : op_opts) (e : ievent) : bool :=
   match ev_response e, ev_hidden e with
-  | Some _, false => match ev_input e, o_exact o with [], false => false | _, _ => true end
+  | Some _, false => match ev_input e with [] => false | _ => true end
   | _, _ => false
   end.
 
@@ -2149,11 +2149,7 @@ Proof.
     unfold ia_has_echo. destruct (ev_response e) as [resp|]; [|eapply K; eauto].
     destruct (ev_hidden e); [eapply K; eauto|].
     unfold until_echo in H. destruct (ev_input e) as [|x inp] eqn:Ei.
-    + destruct (o_exact o) eqn:Ex.
-      * pinv H; [left; auto| |].
-        -- right; right. do 2 eexists. split; [reflexivity|]. eapply K; eauto.
-        -- pinv H. right; left. eauto.
-      * eapply K; eauto.
+    + eapply K; eauto.
     + assert (Em : (match o_exact o with false | _ => true end) = true) by (destruct (o_exact o); auto).
       assert (H' : ptrace cfg (Until (echo_cond o (x :: inp))
                     (fun nb => Write (c_ret cfg) false
